@@ -2,6 +2,7 @@ package stack
 
 import (
 	"reflect"
+	"time"
 
 	"github.com/enbility/spine-go/api"
 	"github.com/enbility/spine-go/model"
@@ -49,8 +50,84 @@ func featureTypePtr(code int64) *model.FeatureTypeType {
 	return &t
 }
 
+// ofCall: the observation is what peer q's registry call with counter ctr wrote or published
+// (coq/Model/StackX.v of_call)
+func ofCall(q, ctr int64, o hx.Zs) bool {
+	switch {
+	case len(o) >= 3 && o[0] == 1:
+		return o[1] == q && o[2] == ctr
+	case len(o) >= 4 && o[0] == 5 && (o[1] == 2 || o[1] == 3):
+		return o[3] == q
+	}
+	return false
+}
+
 // Exec runs one encoded operation and returns the observations.
 func (w *World) Exec(op hx.Zs) []hx.Zs {
+	if len(op) >= 2 && op[0] == 22 {
+		return w.execOverlap(op)
+	}
+	ret := w.execOp(op)
+	code := int64(0)
+	if len(op) > 0 {
+		code = op[0]
+	}
+	out := w.drain(code)
+	return append(out, ret...)
+}
+
+// execOverlap: operation 22 = [22, n, teardown operation (n integers), registry call of another peer].
+// The call is delivered while the teardown runs (see overlap); the observations are returned in the
+// canonical order "the teardown's, then the call's" (each part in its own order), which is the
+// order of the sequential composition that models the overlap.
+func (w *World) execOverlap(op hx.Zs) []hx.Zs {
+	n := int(op[1])
+	if n < 2 || 2+n+3 > len(op) {
+		return nil
+	}
+	td, call := op[2:2+n], op[2+n:]
+	okTd := td[0] == 13 || td[0] == 6 || td[0] == 5
+	okCall := call[0] >= 7 && call[0] <= 10
+	if !okTd || !okCall || td[1] == call[1] {
+		return nil // not an overlap: nothing happens (as in the model)
+	}
+	q, ctr := call[1], call[2]
+	d := &overlap{sub: call[0] == 7 || call[0] == 8, entered: make(chan struct{}), done: make(chan struct{}),
+		deliver: func() { w.execOp(call) }}
+	w.mu.Lock()
+	w.ov = d
+	w.mu.Unlock()
+	ret := w.execOp(td)
+	w.mu.Lock()
+	started := d.started
+	d.started = true // no removal event of that registry: the call is delivered now
+	w.ov = nil
+	w.mu.Unlock()
+	if started {
+		ovCount("call-delivered-inside-removal-cascade")
+		select {
+		case <-d.done:
+		case <-time.After(10 * time.Second):
+			ret = append(ret, hx.Zs{94})
+		}
+	} else {
+		ovCount("call-delivered-after-teardown-without-removal-event")
+		d.deliver()
+	}
+	out := append(w.drain(22), ret...)
+	var first, second []hx.Zs
+	for _, o := range out {
+		if ofCall(q, ctr, o) {
+			second = append(second, o)
+		} else {
+			first = append(first, o)
+		}
+	}
+	return append(first, second...)
+}
+
+// execOp runs one encoded operation; what was written and published is left in the log.
+func (w *World) execOp(op hx.Zs) []hx.Zs {
 	r := &rd{z: op}
 	code := r.n()
 	var ret []hx.Zs
@@ -224,6 +301,5 @@ func (w *World) Exec(op hx.Zs) []hx.Zs {
 			retB(!isNil(w.local.RemoteDeviceForAddress(*devPtr(dev))))
 		}
 	}
-	out := w.drain(code)
-	return append(out, ret...)
+	return ret
 }
